@@ -173,6 +173,11 @@ def obsEq (concat : Bool) (impl model : Obs) : Bool :=
 def handleScatter (c i : Json) : Except String Driver.Verdict := do
   match i.getObjVal? "res" with
   | .error _ =>
+    if (i.getObjVal? "baseline_error").isOk then
+      -- the FAULT-FREE distributed run of this configuration already fails (e.g. the C09 defect "no shard returned a
+      -- schema" for an empty Concat answer held by the initiator alone): nothing about fault propagation can be observed
+      pure { model := Json.str "n/a", k := true, oracle := none, nt := false, tags := ["baseline-error"] }
+    else
     let why := if (i.getObjVal? "panic").isOk then "panic" else "setup"
     pure { model := Json.str "n/a", k := false, oracle := if why == "panic" then some "the coordinator panicked" else none,
            nt := false, tags := [s!"scatter-{why}"] }
